@@ -25,7 +25,7 @@ structure Acl where
   allow : List Net
   deny : List Net
   dflt : Bool
-deriving Repr
+deriving Repr, DecidableEq
 
 /-- the loop structure of `_is_allowed` (first deny hit refuses, first allow hit admits) -/
 def denyHit : List Net → Addr → Bool
@@ -61,6 +61,83 @@ def serverAdmits (c : AclCfg) (a : Option Addr) : Bool :=
   match buildAcl c with
   | none => true
   | some acl => isAllowed acl a
+
+/-- the line `AccessControl.process_request` answers a refused peer with: "53 Access denied\r\n" -/
+def denyLine : List Nat := [53, 51, 32, 65, 99, 99, 101, 115, 115, 32, 100, 101, 110, 105, 101, 100, 13, 10]
+
+/-- `AccessControl.process_request`: `none` = admitted, `some line` = refused with that response line -/
+def aclProcess (acl : Acl) (a : Option Addr) : Option (List Nat) :=
+  if isAllowed acl a then none else some denyLine
+
+/-! ### list entries as written (`AccessControl.__init__`)
+
+Text parsing is `ipaddress`'s; the model sees, for every entry `e`, the outcome of the three attempts
+the constructor makes: `ip_network(e)`, `ip_network(f"{e}/32")`, `ip_network(f"{e}/128")`
+(`none` = that call raises `ValueError`).  The third attempt is not guarded, so an entry for which
+all three fail makes the constructor raise. -/
+structure Entry where
+  asNet : Option Net
+  as32 : Option Net
+  as128 : Option Net
+deriving Repr
+
+def Entry.interp (e : Entry) : Option Net :=
+  match e.asNet with
+  | some n => some n
+  | none =>
+    match e.as32 with
+    | some n => some n
+    | none => e.as128
+
+/-- the parsing loop: the first entry without an interpretation raises -/
+def interpList : List Entry → Option (List Net)
+  | [] => some []
+  | e :: es =>
+    match e.interp with
+    | none => none
+    | some n =>
+      match interpList es with
+      | none => none
+      | some ns => some (n :: ns)
+
+/-- `AccessControl(AccessControlConfig(allow, deny, default))`; `none` = the constructor raises.
+    An absent list and an empty list are both skipped (`if self.config.allow_list:`). -/
+def mkAcl (allow deny : Option (List Entry)) (dflt : Bool) : Option Acl :=
+  match interpList (allow.getD []) with
+  | none => none
+  | some al =>
+    match interpList (deny.getD []) with
+    | none => none
+    | some dn => some { allow := al, deny := dn, dflt := dflt }
+
+/-- the `[access_control]` table as written -/
+structure RawCfg where
+  enabled : Bool
+  allow : Option (List Entry)
+  deny : Option (List Entry)
+  dflt : Bool
+
+/-- outcome of `ServerConfig.get_access_control_config` + the chain assembly in `start_server` -/
+inductive Start where
+  | failed                       -- start-up raised: the server does not run
+  | running (acl : Option Acl)   -- `none` = no AccessControl component in the chain
+deriving Repr, DecidableEq
+
+def noPolicy (c : RawCfg) : Bool := (c.allow.getD []).isEmpty && (c.deny.getD []).isEmpty && c.dflt
+
+def start (c : RawCfg) : Start :=
+  if !c.enabled then .running none
+  else if noPolicy c then .running none
+  else
+    match mkAcl c.allow c.deny c.dflt with
+    | none => .failed
+    | some acl => .running (some acl)
+
+/-- what a peer gets from a running server: `none` = admitted by access control -/
+def runningProcess (acl : Option Acl) (a : Option Addr) : Option (List Nat) :=
+  match acl with
+  | none => none
+  | some x => aclProcess x a
 
 /-! ### specification and theorems -/
 def Spec (allow deny : List Net) (dflt : Bool) (a : Addr) : Prop :=
